@@ -515,6 +515,27 @@ class CallMixin:
                 if self.contains(func.args[0], self.resolve_alt(args[0]), "mapping.get"):
                     return Sym("item", func.args[0], args[0])
                 return args[1] if len(args) == 2 else NONE
+            if func.op == "attr" and func.args[1] in ("group", "__getitem__") and isinstance(func.args[0], Sym) and func.args[0].op == "rematch1" \
+                    and (not args or (len(args) == 1 and isinstance(args[0], Const) and args[0].v == 0)) and not kwargs:
+                return func.args[0].args[0]  # the whole match of a single-character pattern: that character
+            if func.op == "attr" and func.args[1] == "sub" and len(args) == 2 and not kwargs and isinstance(func.args[0], Sym) \
+                    and func.args[0].op == "regex" and isinstance(self.resolve_alt(args[0]), (FuncV, BoundV)):
+                # REGEX.sub(callback, text) for a pattern that is one class of literal characters: the callback is evaluated per
+                # character; if each gets a constant replacement, this is the chain of replaces (when they are independent)
+                chars = _single_char_class(func.args[0].args[0], func.args[0].args[1] if len(func.args[0].args) > 1 else ())
+                base_txt = self.resolve_alt(args[1])
+                if chars is not None and (isinstance(base_txt, Str) or (isinstance(base_txt, Const) and isinstance(base_txt.v, str)) or (isinstance(base_txt, Sym) and base_txt.hint == "str")):
+                    pairs = []
+                    for ch in chars:
+                        r = self.call_v(self.resolve_alt(args[0]), [Sym("rematch1", Const(ch))], {}, module, node, env)
+                        if isinstance(r, Const) and isinstance(r.v, str):
+                            pairs.append((ch, r.v))
+                        else:
+                            pairs = None
+                            break
+                    if pairs is not None and all(pairs[j][0] not in pairs[i][1] for i in range(len(pairs)) for j in range(i + 1, len(pairs))):
+                        s2 = Str(to_str_parts(base_txt, tuple(("replace", k, r) for k, r in pairs)))
+                        return Const(s2.const()) if s2.is_const() else s2
             if func.op == "attr" and func.args[1] == "groups" and not args and not kwargs:
                 # <constant regex>.match/fullmatch/search(text).groups(): one entry per capture group of the pattern
                 mt = func.args[0]
@@ -702,6 +723,19 @@ class CallMixin:
             return Sym("unop", "Invert", self.resolve_alt(args[0]))  # same value as `~x`
         if q in ("functools.wraps", "functools.update_wrapper"):
             return RefV("builtins.__identity__")
+        if q == "re.compile" and args and isinstance(args[0], (Const,)) and isinstance(args[0].v, str):
+            fl = args[1] if len(args) > 1 else kwargs.get("flags")
+            flags: Tuple[str, ...] = ()
+            ok = True
+            if fl is not None:
+                if isinstance(fl, RefV):
+                    flags = tuple(fl.qual.split("|"))
+                elif isinstance(fl, Const) and fl.v in (0, None):
+                    flags = ()
+                else:
+                    ok = False
+            if ok:
+                return Sym("regex", args[0].v, flags)
         if q == "functools.partial" and args:
             return Sym("partial", args[0], tuple(args[1:]), _kw(kwargs))
         if q in ("operator.attrgetter", "_operator.attrgetter") and len(args) == 1 and isinstance(args[0], Const) and isinstance(args[0].v, str):
@@ -1594,3 +1628,32 @@ def _rx_min_width(pattern: str) -> int:
         return parser.parse(pattern).getwidth()[0]
     except Exception:
         return 0
+
+
+def _single_char_class(pattern: str, flags) -> Optional[List[str]]:
+    """The characters of a pattern that is exactly one literal or one class of literal characters (no ranges, no negation)."""
+    if flags and any("I" in str(f) for f in (flags if isinstance(flags, (tuple, list)) else (flags,))):
+        return None
+    import re as _re
+    try:
+        parser = _re._parser  # type: ignore[attr-defined]
+    except AttributeError:  # pragma: no cover
+        import sre_parse as parser  # type: ignore
+    try:
+        p = list(parser.parse(pattern))
+    except Exception:
+        return None
+    if len(p) != 1:
+        return None
+    op, av = p[0]
+    name = str(op)
+    if name == "LITERAL":
+        return [chr(av)]
+    if name == "IN":
+        out = []
+        for o2, a2 in av:
+            if str(o2) != "LITERAL":
+                return None
+            out.append(chr(a2))
+        return out
+    return None
